@@ -53,6 +53,8 @@ def pyval(v):
     """model value -> python value"""
     if v == '-':
         return None
+    if isinstance(v, str) and len(v) > 1 and v[0] == 'm' and v[1:].isdigit():
+        return ['m', int(v[1:])]          # a MUTABLE value: the step that receives it mutates it in place
     if isinstance(v, str) and len(v) > 1 and v[0] == 'v' and v[1:].isdigit():
         return int(v[1:])
     return v
@@ -70,6 +72,8 @@ def mval(v):
         return 'v%d' % v
     if isinstance(v, BaseException):
         return exc_tag(v)
+    if isinstance(v, list) and len(v) >= 2 and v[0] == 'm':
+        return 'm%d' % v[1] + ''.join('+' for _ in v[2:])      # 'm1' as handed over; 'm1+' once mutated
     if isinstance(v, (str, list, tuple, dict)):
         return v
     return repr(v)
@@ -194,6 +198,19 @@ def ret_tag(r):
     return 'other:%r' % (r,)
 
 
+class Passive(plumpy.ProcessListener):
+    """A listener that only counts what it is told (C02: every listener is notified even if another one raises)."""
+
+    def __init__(self, counter):
+        super().__init__()
+        self.counter = counter
+
+    def _n(self, *a, **k):
+        self.counter[0] += 1
+    on_process_running = on_process_waiting = on_process_paused = on_process_played = _n
+    on_output_emitted = on_process_finished = on_process_excepted = on_process_killed = _n
+
+
 class ChildProc(plumpy.Process):
     """A child launched from a workchain step: waits until the environment resumes it, finishes with that value."""
 
@@ -272,6 +289,9 @@ def build_class(prog, out_missing=False):
     def body(self, i, d, args, kwargs):
         self._vlog.append(('step', i, tuple(mval(a) for a in args), tuple(sorted((k, mval(v)) for k, v in kwargs.items())),
                            self.paused, mval(self.status)))
+        for a in list(args) + list(kwargs.values()):
+            if isinstance(a, list) and a and a[0] == 'm':
+                a.append('used')          # consume the mutable argument in place (a checkpoint must not alias it)
         if d['status'] != '-':
             self.set_status(d['status'])
         for port, val in d['emits']:
@@ -553,6 +573,10 @@ class Run:
         if self.use_listener:
             self.listener = Recorder(self.log, self.hooks)
             p.add_process_listener(self.listener)
+            self.n2 = [0]
+            self.passive = [Passive(self.n2), Passive(self.n2)]
+            for q in self.passive:
+                p.add_process_listener(q)
         p.add_state_event_callback(sm.StateEventHook.EXITING_STATE, lambda m, h, st: self.hooks.fire(p, 'cb_exiting'))
         p.add_state_event_callback(sm.StateEventHook.ENTERING_STATE, lambda m, h, st: self.hooks.fire(p, 'cb_entering'))
 
@@ -581,9 +605,10 @@ class Run:
         C07: save -> load -> save must give the same bundle and the same observable process."""
         from . import outline_real
         self.log.append(('saved',))
-        b1 = outline_real.through(plumpy.Bundle(self.proc), self.medium)
-        self.snap = (b1, len(self.log))
-        if self.check_roundtrip:
+        dumped = outline_real.dump(plumpy.Bundle(self.proc), self.medium)
+        self.snap = (dumped, len(self.log))
+        b1 = outline_real.load(dumped, self.medium)
+        if self.check_roundtrip and self.medium != 'none':
             tmp = vloop.VLoop()
             twin = b1.unbundle(plumpy.LoadSaveContext(loop=tmp))
             twin._vlog, twin._vhooks = [], Hooks([], [])
@@ -596,7 +621,9 @@ class Run:
 
     def restore(self):
         """Abandon the running instance; load the checkpoint in a fresh event loop and start stepping it."""
-        bundle, nlog = self.snap
+        dumped, nlog = self.snap
+        from . import outline_real
+        bundle = outline_real.load(dumped, self.medium)
         old = self.proc
         old._vlog = []                   # whatever the abandoned instance still does is of no concern
         old._vhooks = Hooks([], [])
@@ -745,6 +772,7 @@ class Run:
             'fut': fut, 'closed': bool(p._closed), 'task': task, 'outputs': flat_outputs(p.outputs),
             'acc': accessors(p), 'acts': [act_status(a) for a in _ACTS],
             'rpcs': [self.reply_status(f) for f in self.replies],
+            'n2': self.n2[0] if self.use_listener else None,
         }
 
 
@@ -861,5 +889,6 @@ def project_model(S):
         'fut': [fut['st'], fv], 'closed': S['closed'],
         'task': 'failed:' + S['task']['err'] if pc == 'failed' else 'done' if pc == 'done' else 'live',
         'outputs': norm(S['outputs']), 'acc': acc, 'acts': [a['status'] for a in S['acts']],
+        'n2': 2 * sum(1 for e in S['log'] if e[0] == 'notify'),
         'rpcs': ['n/a' if m['kind'] == 'bcast' else ('pending' if m['st'] in ('sched', 'await', 'woken') else m['st']) for m in S['rpcs']],
     }
